@@ -10,7 +10,7 @@ EXTENDS TVCommon
 VARIABLES tpc, err, flag, sock, cpc, peerOpen, consumed, ncallers, peerSends, peerCloses, off, l, viol, judged, cur
 tvars == <<tpc, err, flag, sock, cpc, peerOpen, consumed, ncallers, peerSends, peerCloses, off, l, viol, judged, cur>>
 
-Pending == IF consumed THEN "nothing" ELSE peerSends
+Pending == IF peerSends = "flood" THEN "full_reply" ELSE IF consumed THEN "nothing" ELSE peerSends
 EndOfStream == sock = "shut" \/ ~peerOpen
 \* the spontaneous step of the model: the blocked read returns
 AfterRead(t, e, c) ==     \* <<tpc, err, consumed>> after ReadDone if it is enabled
@@ -37,7 +37,8 @@ TVCmd == /\ l <= Len(Rec) /\ Rec[l].ev = "cmd"
                              [] e.c = "handler_return" -> tpc = "handling"
                              [] OTHER -> FALSE
                 t1 == CASE e.c = "t" /\ tpc = "top" -> "reading" [] e.c = "t" /\ tpc = "replied" -> "top" [] e.c = "t" /\ tpc = "final" -> "exited"
-                        [] e.c = "handler_return" -> (IF peerSends = "full_reply" /\ (sock = "shut" \/ ~peerOpen) THEN "final" ELSE "replied")
+                        [] e.c = "handler_return" -> (IF peerSends = "flood" THEN "writing"
+                                                      ELSE IF peerSends = "full_reply" /\ (sock = "shut" \/ ~peerOpen) THEN "final" ELSE "replied")
                         [] OTHER -> tpc
                 e1 == IF e.c = "handler_return" /\ peerSends = "full_reply" /\ (sock = "shut" \/ ~peerOpen) THEN "SocketBroken" ELSE err
                 sock1 == IF e.c = "shut" \/ (e.c = "t" /\ tpc = "final") THEN "shut" ELSE sock
@@ -47,7 +48,9 @@ TVCmd == /\ l <= Len(Rec) /\ Rec[l].ev = "cmd"
                /\ cpc' = IF e.c = "store" THEN [cpc EXCEPT ![e.a] = "flagged"] ELSE IF e.c = "shut" THEN [cpc EXCEPT ![e.a] = "done"] ELSE cpc
                /\ sock' = sock1 /\ peerOpen' = po1
                \* ReadDone fires by itself as soon as it is enabled (evaluated with the new socket / peer state)
-               /\ LET r == IF t1 = "reading" /\ (IF consumed THEN "nothing" ELSE peerSends) \in {"full", "full_reply"} THEN <<"handling", e1, TRUE>>
+               /\ LET r == IF t1 = "reading" /\ Pending \in {"full", "full_reply"} THEN <<"handling", e1, TRUE>>
+                           \* the blocked write of a reply fails once the socket is shut down or the peer is gone
+                           ELSE IF t1 = "writing" /\ (sock1 = "shut" \/ ~po1) THEN <<"final", "SocketBroken", consumed>>
                            ELSE IF t1 = "reading" /\ (sock1 = "shut" \/ ~po1)
                                 THEN <<"final", CASE Pending = "nothing" -> "Disconnected" [] Pending = "part_hdr" -> "PartialMessage" [] OTHER -> "InvalidMessage", consumed>>
                                 ELSE <<t1, e1, consumed>> IN
